@@ -116,6 +116,10 @@ func c16BinaryMonitor(a Args, res *Result, cases []c16Case, t2g string, base str
 			defer wg.Done()
 			dir := filepath.Join(base, fmt.Sprintf("bin%d", k))
 			for i := range ch {
+				if cases[i].Class == "hang" { // reported by the parser monitor already; the binary would only hang again
+					rs[i] = r{"skipped", ""}
+					continue
+				}
 				st, o := c16BinaryOnce(t2g, dir, cases[i].Input, 5000)
 				for n := 0; n < 2 && st == "hang"; n++ { // a hang only counts when it reproduces with a longer cap
 					st, o = c16BinaryOnce(t2g, dir, cases[i].Input, 15000)
@@ -137,10 +141,9 @@ func c16BinaryMonitor(a Args, res *Result, cases []c16Case, t2g string, base str
 		hist[c.Class+"->"+rs[i].status]++
 		in := c16Trunc(string(c.Input), 200)
 		switch {
+		case rs[i].status == "skipped":
 		case rs[i].status == "hang":
-			if c.Class != "hang" { // a front-end hang is reported by the parser monitor already
-				res.Failures = append(res.Failures, Failure{Sig: "tars2go/bin/hang", Desc: fmt.Sprintf("the tars2go binary does not terminate (3 runs, 5 s / 15 s / 15 s) on %q", in), Replay: *c})
-			}
+			res.Failures = append(res.Failures, Failure{Sig: "tars2go/bin/hang", Desc: fmt.Sprintf("the tars2go binary does not terminate (3 runs, 5 s / 15 s / 15 s) on %q", in), Replay: *c})
 		case rs[i].status != "exit0" && rs[i].status != "exit1":
 			res.Failures = append(res.Failures, Failure{Sig: "tars2go/bin/crash", Desc: fmt.Sprintf("the tars2go binary ended with %s instead of a diagnostic on %q: %s", rs[i].status, in, c16Trunc(rs[i].out, 300)), Replay: *c})
 		case strings.Contains(rs[i].out, "runtime error:") || strings.Contains(rs[i].out, "goroutine "):
@@ -693,6 +696,42 @@ func c16GapProgram() *c16Prog {
 	return &c16Prog{Idx: -1, Mod: m, Text: c16Join(m.toks(), nil, 0)}
 }
 
+// a fixed program that meets every declaration form and the sites of the generator defects repaired so far
+func c16CornerProgram() *c16Prog {
+	ty := func(k string) *c16Ty { return &c16Ty{K: k} }
+	uty := func(k string) *c16Ty { return &c16Ty{K: k, Unsigned: true} }
+	nm := func(n string) *c16Ty { return &c16Ty{K: "name", Name: n} }
+	vec := func(a *c16Ty) *c16Ty { return &c16Ty{K: "vector", A: a} }
+	mp := func(a, b *c16Ty) *c16Ty { return &c16Ty{K: "map", A: a, B: b} }
+	color := &c16Enum{Name: "color", Mb: []c16EnumMb{{Key: "red", Kind: 2}, {Key: "green", Kind: 0, Val: 5}, {Key: "blue", Kind: 2}, {Key: "teal", Kind: 1, Ref: "green"},
+		{Key: "aqua", Kind: 2}, {Key: "navy", Kind: 1, Ref: "red"}, {Key: "sky", Kind: 2}, {Key: "mist", Kind: 1, Ref: "blue"}, {Key: "fog", Kind: 2}}}
+	big := &c16Enum{Name: "Big", Mb: []c16EnumMb{{Key: "MAXV", Kind: 0, Val: 2147483647}, {Key: "MINV", Kind: 0, Val: -2147483648}, {Key: "NEXTV", Kind: 2}}}
+	inner := &c16Struct{Name: "inner", Mb: []c16Member{{Tag: 0, Req: true, Ty: ty("int"), Key: "a"}, {Tag: 1, Ty: ty("string"), Key: "s", Def: `"dflt"`}}}
+	all := &c16Struct{Name: "all", Mb: []c16Member{
+		{Tag: 30, Ty: mp(nm("color"), vec(nm("inner"))), Key: "m"},
+		{Tag: 0, Ty: ty("byte"), Key: "b"}, {Tag: 1, Ty: uty("byte"), Key: "ub"}, {Tag: 2, Ty: ty("short"), Key: "sh"}, {Tag: 3, Ty: uty("short"), Key: "ush"},
+		{Tag: 4, Ty: ty("int"), Key: "i"}, {Tag: 5, Ty: uty("int"), Key: "ui"}, {Tag: 6, Ty: ty("long"), Key: "l"}, {Tag: 7, Ty: ty("float"), Key: "f"},
+		{Tag: 8, Ty: ty("double"), Key: "d"}, {Tag: 9, Ty: ty("string"), Key: "s"}, {Tag: 10, Ty: ty("bool"), Key: "o"},
+		{Tag: 11, Ty: nm("color"), Key: "c", Def: "teal"}, {Tag: 12, Req: true, Ty: nm("color"), Key: "ca", ArrLen: 2}, {Tag: 13, Ty: nm("inner"), Key: "ia", ArrLen: 2},
+		{Tag: 14, Req: true, Ty: nm("Big"), Key: "bg", Def: "NEXTV"}, {Tag: 15, Ty: ty("byte"), Key: "bd", Def: "-128"}, {Tag: 16, Ty: uty("byte"), Key: "ubd", Def: "255"},
+		{Tag: 254, Ty: ty("long"), Key: "ld", Def: "-9223372036854775808"}, {Tag: 255, Req: true, Ty: vec(nm("color")), Key: "vc"},
+		{Tag: 20, Ty: ty("float"), Key: "fd", Def: "100.125"}, {Tag: 21, Ty: ty("double"), Key: "dd", Def: "-2.25"}, {Tag: 22, Ty: ty("int"), Key: "hexd", Def: "0x7fffffff"},
+		{Tag: 23, Ty: ty("short"), Key: "octd", Def: "017"}, {Tag: 24, Ty: nm("color"), Key: "cn", Def: "fog"}, {Tag: 25, Ty: ty("bool"), Key: "ot", Def: "true"},
+		{Tag: 26, Req: true, Ty: ty("string"), Key: "sa", ArrLen: 1}, {Tag: 27, Ty: vec(ty("byte")), Key: "vb"}, {Tag: 28, Ty: vec(uty("byte")), Key: "vub"},
+		{Tag: 29, Ty: mp(ty("string"), mp(ty("long"), vec(vec(ty("bool"))))), Key: "deep"}}}
+	svc := &c16Iface{Name: "svc", Funcs: []c16Func{
+		{Name: "pick", Ret: nm("color"), Args: []c16Arg{{Name: "c", Ty: nm("color")}, {Name: "d", Out: true, Ty: nm("color")}, {Name: "i", Ty: nm("inner")}, {Name: "o", Out: true, Ty: nm("inner")},
+			{Name: "vc", Ty: vec(nm("color"))}, {Name: "m", Out: true, Ty: mp(ty("string"), nm("inner"))}}},
+		{Name: "nop"},
+		{Name: "scal", Ret: vec(ty("byte")), Args: []c16Arg{{Name: "b", Ty: ty("byte")}, {Name: "ub", Out: true, Ty: uty("byte")}, {Name: "f", Ty: ty("float")}, {Name: "d", Out: true, Ty: ty("double")},
+			{Name: "l", Ty: ty("long")}, {Name: "o", Out: true, Ty: ty("bool")}, {Name: "s", Ty: ty("string")}, {Name: "us", Out: true, Ty: uty("short")}, {Name: "w", Ty: nm("all")}, {Name: "x", Out: true, Ty: nm("all")}}}}}
+	m := &c16Module{Name: "TvCorner", Decls: []c16Decl{{E: color}, {E: big},
+		{C: &c16Const{Ty: ty("long"), Name: "minLong", Val: "-9223372036854775808"}}, {C: &c16Const{Ty: uty("byte"), Name: "Ub", Val: "255"}}, {C: &c16Const{Ty: ty("string"), Name: "str", Val: `"a;b{c} // x"`}},
+		{C: &c16Const{Ty: ty("double"), Name: "dbl", Val: "-.5"}}, {C: &c16Const{Ty: ty("float"), Name: "flt", Val: "3."}}, {C: &c16Const{Ty: ty("bool"), Name: "yes", Val: "true"}},
+		{S: inner}, {S: all}, {K: []string{"all", "b", "s"}}, {I: svc}}}
+	return &c16Prog{Idx: -2, Mod: m, Text: c16Join(m.toks(), nil, 0)}
+}
+
 func c16TvProgram(rng *rand.Rand, idx int, opt c16GenOpt, dep *c16Prog) *c16Prog {
 	var dm *c16Module
 	if dep != nil {
@@ -830,6 +869,7 @@ func c16BackEnd(a Args, rng *rand.Rand, res *Result, cases []c16Case, replay *c1
 		nbatch, nprog, per, calls = 25, 12, 12, 8
 	}
 	c16TV(a, res, t2g, filepath.Join(base, "tvgap"), []*c16Prog{c16GapProgram()}, per, calls, &off)
+	c16TV(a, res, t2g, filepath.Join(base, "tvcorner"), []*c16Prog{c16CornerProgram()}, 3*per, 3*calls, &off)
 	idx := 0
 	for b := 0; b < nbatch; b++ {
 		var progs []*c16Prog
